@@ -2,7 +2,7 @@
 from __future__ import annotations
 
 import ast
-from typing import Iterable, Iterator, List, Optional, Sequence, Tuple
+from typing import Set, Iterable, Iterator, List, Optional, Sequence, Tuple
 
 FUNC_NODES = (ast.FunctionDef, ast.AsyncFunctionDef, ast.Lambda)
 SCOPE_NODES = FUNC_NODES + (ast.ClassDef,)
@@ -189,3 +189,37 @@ def iter_stmts(body: Sequence[ast.stmt]) -> Iterator[ast.stmt]:
         if isinstance(s, ast.Match):
             for c in s.cases:
                 yield from iter_stmts(c.body)
+
+
+def skippable_calls(root: ast.AST) -> Set[int]:
+    """ids of the Call nodes inside `root` that short-circuit evaluation may skip: a later operand of and/or, an arm of a
+    conditional expression, the element or a later clause of a comprehension.  (`a = a or f()` calls f only when a is falsy.)"""
+    out: Set[int] = set()
+
+    def visit(e: ast.AST, skippable: bool) -> None:
+        if isinstance(e, ast.Call) and skippable:
+            out.add(id(e))
+        if isinstance(e, ast.BoolOp):
+            for i, v in enumerate(e.values):
+                visit(v, skippable or i > 0)
+            return
+        if isinstance(e, ast.IfExp):
+            visit(e.test, skippable)
+            visit(e.body, True)
+            visit(e.orelse, True)
+            return
+        if isinstance(e, (ast.ListComp, ast.SetComp, ast.GeneratorExp, ast.DictComp)):
+            for i, gen in enumerate(e.generators):
+                visit(gen.iter, skippable or i > 0)
+                for c in gen.ifs:
+                    visit(c, True)
+            for part in ([e.key, e.value] if isinstance(e, ast.DictComp) else [e.elt]):
+                visit(part, True)
+            return
+        if isinstance(e, (ast.Lambda, ast.FunctionDef, ast.AsyncFunctionDef, ast.ClassDef)):
+            return
+        for c in ast.iter_child_nodes(e):
+            visit(c, skippable)
+
+    visit(root, False)
+    return out
